@@ -357,6 +357,19 @@ impl Family for Msg {
                 (Ok(()), Ok(())) => {}
                 (Err(_), Err(_)) => {
                     stat(&format!("panic_{}", t[0]));
+                    if t[0] == "S" {
+                        // which panic site of slice_range.rs / message.rs:93 the case aims at
+                        let a: u64 = t.get(3).map(|x| x.parse().unwrap()).unwrap_or(0);
+                        let b: u64 = t.get(4).map(|x| x.parse().unwrap()).unwrap_or(0);
+                        let why = match t[2] {
+                            "ri" if b == u64::MAX => "end_plus_1_overflows",
+                            "rti" if a == u64::MAX => "end_plus_1_overflows",
+                            "ri" if a > b + 1 => "end_plus_1_minus_start_underflows",
+                            "rg" if a > b => "inverted_and_start_beyond_len",
+                            _ => "assert_start_plus_len",
+                        };
+                        stat(&format!("panic_S_{}_{}", t[2], why));
+                    }
                 }
                 (Ok(()), Err(_)) if inverted => {
                     // documented remark (C07_inverted_range_remark): `s..e` with e < s <= len yields the
@@ -468,9 +481,35 @@ fn compare(m: &Message, v: &Vec<u8>) -> Option<String> {
 fn apply_impl(pool: &mut Vec<Message>, t: &[&str]) {
     let us = |k: usize| -> usize { t[k].parse::<usize>().expect("number") };
     match t[0] {
-        "N" => pool[us(1)] = Message::new(unhex(t[2])),
+        "N" => {
+            // every constructor path of chunk.rs:50-84 / message.rs:234-250 ends in Chunk::new(Vec)
+            let b = unhex(t[2]);
+            pool[us(1)] = match b.len() % 5 {
+                0 => Message::new(b),
+                1 => Message::new(&b[..]),
+                2 => Message::from(b),
+                3 => Message::from(&b[..]),
+                _ => match String::from_utf8(b.clone()) {
+                    Ok(st) => {
+                        if b.len() % 2 == 0 {
+                            Message::new(st.as_str())
+                        } else {
+                            Message::new(st)
+                        }
+                    }
+                    Err(_) => Message::new(b),
+                },
+            }
+        }
         "C" => pool[us(1)] = pool[us(2)].clone(),
-        "H" => pool[us(1)].header(unhex(t[2])),
+        "H" => {
+            let b = unhex(t[2]);
+            if b.len() % 2 == 0 {
+                pool[us(1)].header(b)
+            } else {
+                pool[us(1)].header(&b[..])
+            }
+        }
         "K" => {
             let o = pool[us(2)].clone();
             pool[us(1)].concatenate(o)
